@@ -341,6 +341,20 @@ def run(facts, rep, tier, ctx):
     from . import c12 as _c12
     from .c10 import _Prefixed as _Pfx
     _c12.run_error_rs(facts, _Pfx(rep, "R01.4e"))
+    # R01.8 which entry a call names: the contracts quantify over all valid component names (dotted ones included), and every
+    # operation reaches its target through join — a component other than "", "." and ".." that join drops or rewrites makes
+    # `dir.join(name)` name another entry, so create_* on it answers for the wrong place (component classification of C06 R06.2/R06.3,
+    # shared by both worlds through PathLike)
+    from . import c06 as _c06
+    from ..report import Report as _Rep
+    _scr = _Rep("j")
+    _c06.joiner_rules(facts, _scr, _D)
+    _k8 = 0
+    for o in _scr.obligations:
+        if o["rule"] in ("R06.2", "R06.3"):
+            _k8 += 1
+            rep.ob("R01.8", o["fn"], o["key"].split("|")[2], o["ok"], o["detail"], o["loc"])
+    rep.floor("join component-classification obligations (R01.8)", _k8, 4)
     # the async port: its path type, memory/physical backends and adapters are separate copies of the same contracts
     wa = World(facts, True)
     rep.ob("R01.A", "async_vfs", "async world present", wa.present(), "", "")
